@@ -185,6 +185,312 @@ def cases(L, tier, start_lo, start_hi, modes=("call", "call_try"), first=(0, 1))
         yield h, bad, tags
 
 
+# ---------------------------------------------------------------------------------------------------------------
+# (b) a mock whose arguments come from DUT registers that change on the very edge the call executes
+
+
+def make_auto():
+    from amaranth import Elaboratable, Module, Signal
+    from transactron import TModule, Method, Transaction
+    from transactron.lib.adapters import Adapter
+    from transactron.testing.testbenchio import TestbenchIO
+
+    class Dut(Elaboratable):
+        def __init__(self):
+            self.sink = Method(i=[("x", XW)], o=[("y", YW)])
+            self.cnt = Signal(XW)
+            self.acc = Signal(YW)
+
+        def elaborate(self, platform):
+            m = TModule()
+            with Transaction().body(m):
+                r = self.sink(m, x=self.cnt)
+                m.d.sync += self.cnt.eq(self.cnt + 1)
+                m.d.sync += self.acc.eq(r.y)
+            return m
+
+    class Top(Elaboratable):
+        def __init__(self):
+            self.dut = Dut()
+            self.mocked = TestbenchIO(Adapter.create(self.dut.sink))
+
+        def elaborate(self, platform):
+            m = Module()
+            m.submodules.dut = self.dut
+            m.submodules.mocked = self.mocked
+            return m
+
+    return Top()
+
+
+def run_auto(pattern, delay, mock_first):
+    from transactron.testing.simulator import PysimSimulator
+    from transactron.testing.method_mock import MethodMock
+    from transactron.utils.dependencies import DependencyContext, DependencyManager
+
+    with DependencyContext(DependencyManager()):
+        top = make_auto()
+        st = {"enable_calls": 0, "log": []}
+        L = len(pattern)
+
+        def enable():
+            k = st["enable_calls"]
+            st["enable_calls"] += 1
+            return bool(pattern[k]) if k < L else False
+
+        def mock_fn(x):
+            n = len(st["log"])
+
+            @MethodMock.effect
+            def eff():
+                st["log"].append(int(x))
+
+            return {"y": (x + n) % (1 << YW)}
+
+        mock = MethodMock(top.mocked.adapter, mock_fn, enable=enable, delay=delay)
+        wire = []
+        fin = {"tb": False}
+
+        async def tb(sim):
+            for _ in range(L + 2):
+                await sim.tick()
+            fin["tb"] = True
+
+        async def monitor(sim):
+            async for _, _, tdone, tx, ty, acc in sim.tick().sample(
+                    top.mocked.adapter.done, top.mocked.adapter.data_out.x, top.mocked.adapter.data_in.y, top.dut.acc):
+                wire.append((int(tdone), int(tx), int(ty), int(acc)))
+
+        sim = PysimSimulator(top, max_cycles=200)
+        if mock_first:
+            sim.add_mock(mock)
+        sim.add_testbench(monitor, background=True)
+        sim.add_testbench(tb)
+        if not mock_first:
+            sim.add_mock(mock)
+        sim.run()
+    return {"wire": wire, "log": st["log"], "finished": fin["tb"]}
+
+
+def cases_auto(L, first):
+    for pattern in itertools.product((0, 1), repeat=L):
+        if pattern[0] != first:
+            continue
+        for delay in (0, 1e-9):
+            for mock_first in (True, False):
+                h = {"pattern": list(pattern), "delay": delay, "mock_first": mock_first, "design": "auto"}
+                tags = []
+                try:
+                    got = run_auto(list(pattern), delay, mock_first)
+                except Exception as e:
+                    yield h, f"simulation: {type(e).__name__}: {str(e)[:200]}", tags
+                    continue
+                exp_cycles = [c for c in range(L) if pattern[c]]
+                exp = [(c, k % (1 << XW), (k % (1 << XW) + k) % (1 << YW)) for k, c in enumerate(exp_cycles)]
+                wire_runs = [(c, w[1], w[2]) for c, w in enumerate(got["wire"]) if w[0]]
+                bad = None
+                if not got["finished"]:
+                    bad = "hang: the testbench did not finish"
+                elif [c for c, _, _ in wire_runs] != exp_cycles:
+                    bad = f"exactly_once: the mocked method executed in cycles {[c for c, _, _ in wire_runs]}, enabled in {exp_cycles}"
+                elif wire_runs != exp:
+                    bad = f"mock.data: per executed call (cycle, argument, returned) on the wires {wire_runs}, expected {exp}"
+                elif got["log"] != [x for _, x, _ in exp]:
+                    bad = (f"effects: the effects applied carry arguments {got['log']}, the executed calls had arguments "
+                           f"{[x for _, x, _ in exp]}")
+                else:
+                    # the value returned in cycle c is registered by the caller at the end of that cycle
+                    for c, _, y in exp:
+                        if c + 1 < len(got["wire"]) and got["wire"][c + 1][3] != y:
+                            bad = f"same_cycle: the caller registered {got['wire'][c + 1][3]} for the call of cycle {c}, mock returned {y}"
+                            break
+                if any(b == a + 1 for a, b in zip(exp_cycles, exp_cycles[1:])):
+                    tags.append("nt_back_to_back")
+                if len(exp_cycles) >= 2:
+                    tags.append("nt_auto_two_calls")
+                yield h, bad, tags
+
+
+# ---------------------------------------------------------------------------------------------------------------
+# (c) CallTrigger with two calls: plain await, until_done, until_all_done
+
+
+def make_pair():
+    from amaranth import Elaboratable, Module
+    from transactron import TModule, Method, def_method
+    from transactron.lib.adapters import Adapter, AdapterTrans
+    from transactron.testing.testbenchio import TestbenchIO
+
+    class Dut(Elaboratable):
+        def __init__(self):
+            self.t = [Method(i=[("x", XW)], o=[("y", YW)]) for _ in range(2)]
+            self.w = [Method(i=[("x", XW)], o=[("y", YW)]) for _ in range(2)]
+
+        def elaborate(self, platform):
+            m = TModule()
+            def define(k):
+                @def_method(m, self.w[k])
+                def _(x):
+                    return {"y": self.t[k](m, x=x).y}
+
+            for k in range(2):
+                define(k)
+            return m
+
+    class Top(Elaboratable):
+        def __init__(self):
+            self.dut = Dut()
+            self.callers = [TestbenchIO(AdapterTrans.create(self.dut.w[k])) for k in range(2)]
+            self.mocked = [TestbenchIO(Adapter.create(self.dut.t[k])) for k in range(2)]
+
+        def elaborate(self, platform):
+            m = Module()
+            m.submodules.dut = self.dut
+            for k in range(2):
+                m.submodules[f"caller{k}"] = self.callers[k]
+                m.submodules[f"mocked{k}"] = self.mocked[k]
+            return m
+
+    return Top()
+
+
+def run_pair(pa, pb, start, mode, delay, mock_first):
+    from transactron.testing.simulator import PysimSimulator
+    from transactron.testing.method_mock import MethodMock
+    from transactron.testing.testbenchio import CallTrigger
+    from transactron.utils.dependencies import DependencyContext, DependencyManager
+
+    with DependencyContext(DependencyManager()):
+        top = make_pair()
+        pats = [pa, pb]
+        st = [{"enable_calls": 0, "count": 0} for _ in range(2)]
+        mocks = []
+        def make_mock(k):
+            def enable():
+                n = st[k]["enable_calls"]
+                st[k]["enable_calls"] += 1
+                return bool(pats[k][n]) if n < len(pats[k]) else True
+
+            def mock_fn(x):
+                seen = st[k]["count"]
+
+                @MethodMock.effect
+                def eff():
+                    st[k]["count"] += 1
+
+                return {"y": (x + seen + 3 * k) % (1 << YW)}
+
+            return MethodMock(top.mocked[k].adapter, mock_fn, enable=enable, delay=delay)
+
+        for k in range(2):
+            mocks.append(make_mock(k))
+        out = {"res": None, "finished": False}
+        wire = []
+
+        async def tb(sim):
+            for _ in range(start):
+                await sim.tick()
+            trig = CallTrigger(sim).call(top.callers[0], x=1).call(top.callers[1], {"x": 2})
+            if mode == "once":
+                res = await trig
+            elif mode == "until_done":
+                res = await trig.until_done()
+            else:
+                res = await trig.until_all_done()
+            out["res"] = [None if r is None else int(r.y) for r in res]
+            for _ in range(2):
+                await sim.tick()
+            out["finished"] = True
+
+        async def monitor(sim):
+            sigs = []
+            for k in range(2):
+                sigs += [top.callers[k].adapter.done, top.callers[k].adapter.data_out.y, top.mocked[k].adapter.done,
+                         top.mocked[k].adapter.data_out.x, top.mocked[k].adapter.data_in.y]
+            async for _, _, *vals in sim.tick().sample(*sigs):
+                wire.append(tuple(int(v) for v in vals))
+
+        sim = PysimSimulator(top, max_cycles=200)
+        if mock_first:
+            for mk in mocks:
+                sim.add_mock(mk)
+        sim.add_testbench(monitor, background=True)
+        sim.add_testbench(tb)
+        if not mock_first:
+            for mk in mocks:
+                sim.add_mock(mk)
+        sim.run()
+    return {"res": out["res"], "finished": out["finished"], "wire": wire, "effects": [s["count"] for s in st]}
+
+
+def reference_pair(pa, pb, start, mode):
+    pats = [pa, pb]
+    rdy = lambda k, c: bool(pats[k][c]) if c < len(pats[k]) else True  # noqa: E731
+    xs = [1, 2]
+    n = [0, 0]
+    runs = [[], []]
+    c = start
+    while True:
+        res = []
+        for k in range(2):
+            if rdy(k, c):
+                y = (xs[k] + n[k] + 3 * k) % (1 << YW)
+                runs[k].append((c, xs[k], y))
+                n[k] += 1
+                res.append(y)
+            else:
+                res.append(None)
+        c += 1
+        if mode == "once" or (mode == "until_done" and any(r is not None for r in res)) or \
+                (mode == "until_all_done" and all(r is not None for r in res)):
+            return runs, res
+
+
+def cases_pair(L, start, mode, first):
+    for pa in itertools.product((0, 1), repeat=L):
+        if pa[0] != first:
+            continue
+        for pb in itertools.product((0, 1), repeat=L):
+            for delay in (0, 1e-9):
+                for mock_first in (True, False):
+                    h = {"pa": list(pa), "pb": list(pb), "start": start, "mode": mode, "delay": delay, "mock_first": mock_first,
+                         "design": "pair"}
+                    tags = []
+                    try:
+                        got = run_pair(**{k: v for k, v in h.items() if k != "design"})
+                    except Exception as e:
+                        yield h, f"simulation: {type(e).__name__}: {str(e)[:200]}", tags
+                        continue
+                    runs, res = reference_pair(list(pa), list(pb), start, mode)
+                    bad = None
+                    if not got["finished"]:
+                        bad = "hang: the testbench did not finish"
+                    elif got["res"] != res:
+                        bad = f"result: the trigger returned {got['res']}, expected {res}"
+                    else:
+                        for k in range(2):
+                            w = [(c, v[5 * k + 3], v[5 * k + 4]) for c, v in enumerate(got["wire"]) if v[5 * k + 2]]
+                            cw = [(c, v[5 * k + 1]) for c, v in enumerate(got["wire"]) if v[5 * k]]
+                            if [c for c, _, _ in w] != [c for c, _, _ in runs[k]]:
+                                bad = (f"exactly_once: method {k} executed in cycles {[c for c, _, _ in w]}, the trigger's "
+                                       f"attempts account for cycles {[c for c, _, _ in runs[k]]}")
+                            elif w != runs[k]:
+                                bad = f"mock.data: method {k} (cycle, argument, returned) on the wires {w}, expected {runs[k]}"
+                            elif cw != [(c, y) for c, _, y in runs[k]]:
+                                bad = f"same_cycle: caller {k} saw (cycle, value) {cw}, the mock returned {runs[k]}"
+                            elif got["effects"][k] != len(runs[k]):
+                                bad = f"effects: {got['effects'][k]} effect executions of mock {k} for {len(runs[k])} executed calls"
+                            if bad:
+                                break
+                    if sum(r is not None for r in res) == 1:
+                        tags.append("nt_trigger_partial")
+                    if mode != "once" and runs[0] and runs[1] and runs[0][0][0] != runs[1][0][0]:
+                        tags.append("nt_trigger_ready_in_different_cycles")
+                    if mode == "until_done" and (runs[0] or runs[1]) and min(r[0][0] for r in runs if r) > start:
+                        tags.append("nt_trigger_waited")
+                    yield h, bad, tags
+
+
 def run(rep, tier):
     L = 4 if tier == "quick" else 6
     rep.rule = ("every history (readiness pattern of the mocked method of length 4 (6) x start cycle x call / call_try x argument "
@@ -193,11 +499,20 @@ def run(rep, tier):
                 "samples the adapters' wires every cycle; compared with a reference computed from the history alone: values "
                 "returned by the helpers (None iff the method did not run), the cycles in which the method executed (exactly one "
                 "per successful call, none afterwards), mock return value = f(argument, number of effects so far) seen by the "
-                "caller in the same cycle, number of effect executions")
+                "caller in the same cycle, number of effect executions.  (b) a DUT transaction calling the mocked method with a "
+                "register argument that changes on the edge of each executed call: every enable pattern; the effects applied must "
+                "carry the arguments of the executed calls.  (c) a CallTrigger with two calls (plain await / until_done / "
+                "until_all_done): every pair of readiness patterns x start cycle; results, executions per cycle, effects")
     rep.assumptions = ["Amaranth's simulator schedules testbenches/processes as documented (insertion order is part of the history)",
                        "2-3 calls per history"]
     starts = range(0, 3 if tier == "quick" else 4)
     js = [ENUM("checks.c43", "cases", {"L": L, "tier": tier, "start_lo": s, "start_hi": s + 1, "modes": [md], "first": [f]})
           for s in starts for md in ("call", "call_try") for f in (0, 1)]
+    La = 5 if tier == "quick" else 7
+    js += [ENUM("checks.c43", "cases_auto", {"L": La, "first": f}) for f in (0, 1)]
+    Lp = 3 if tier == "quick" else 4
+    js += [ENUM("checks.c43", "cases_pair", {"L": Lp, "start": s, "mode": md, "first": f})
+           for s in ((0, 1) if tier == "quick" else (0, 1, 2)) for md in ("once", "until_done", "until_all_done") for f in (0, 1)]
     add_enum(rep, run_jobs(js))
-    return {"transitions": 300, "nt_call_try_none": 50, "nt_call_waited": 50, "nt_back_to_back": 50}
+    return {"transitions": 300, "nt_call_try_none": 50, "nt_call_waited": 50, "nt_back_to_back": 50, "nt_auto_two_calls": 20,
+            "nt_trigger_partial": 50, "nt_trigger_waited": 20}
